@@ -135,6 +135,15 @@ def rule_a(ctx, cr):
               "the variable pool limit is tested before any insert_*",
               "Var::store no longer tests vars.len() before inserting: the variable pool is "
               "unbounded")
+    oom = [b for b, c, _s in st.error_codes() if c == "OutOfMemory"]
+    newkey = any(c[0] == "eq" and "contains_key" in str(c[1]) and c[2] is False
+                 for b in oom for c in st.conds_at(b))
+    ctx.check(bool(oom) and newkey, "C18.a", "Var::store/limit-only-for-new-keys", st.span,
+              "a full pool refuses new variables only: overwriting or zeroing an existing one "
+              "still works (and zeroing frees its slot)",
+              "Var::store raises OUT OF MEMORY on a full pool before it looks at the key: a "
+              "variable that already exists can no longer be overwritten or set back to 0, so "
+              "nothing can be freed without CLEAR")
     writers = set()
     for p, f in cr.fns.items():
         for c in f.calls_matching(r"HashMap::<K, V, S, A>::insert$"):
